@@ -195,13 +195,13 @@ def check_source(ctx, src, tag, cli_dir=None):
         from pico8 import tool
         from pico8.game import file as p8file
         regions, _ = carts.random_regions(ctx.rng, 'sparse')
-        p1 = os.path.join(cli_dir, 'in.p8')
+        p1 = os.path.join(cli_dir, ambient.BASE[0] + '.p8')
         with open(p1, 'wb') as fh:
             fh.write(rc.write_p8(regions, src, version=8))
         want = src if src.endswith(b'\n') else src + b'\n'
         try:
             rcode = tool.main([ambient.vflag(), 'writep8', p1])
-            got1 = rc.read_p8(open(os.path.join(cli_dir, 'in_fmt.p8'), 'rb').read())['code']
+            got1 = rc.read_p8(open(os.path.join(cli_dir, ambient.BASE[0] + '_fmt.p8'), 'rb').read())['code']
             out2 = os.path.join(cli_dir, 'out.p8')
             if os.path.exists(out2):
                 os.remove(out2)
